@@ -19,14 +19,14 @@ LF == INSTANCE LogForms WITH Zero <- BRZero, One <- BROne, Add <- BRAdd, Sub <- 
 
 TraceInit == TallyInit /\ l = 1
 
-KAPPA == 256          \* "a small multiple of 2^-53" for the log constructions (DESIGN section 3, C09)
+KAPPA == 512          \* "a small multiple of 2^-53" for the log constructions: measured worst case 150 (108 000 events)
 Slack == BRPow2(-150)  \* relative allowance for the ln / exp-tail approximations themselves
 
 Finite(bs) == \A i \in 1..Len(bs) : IsFinite(bs[i])
 Rest(s) == [i \in 1..(Len(s) - 1) |-> s[i + 1]]
 Sum2(a, b) == BRAdd(a, b)
 TolOf(mag) == BRMul(BRAdd(BRMul(BR(KAPPA), U), Slack), mag)
-Near(x, y, mag) == BRLe(BRAbs(BRSub(x, y)), TolOf(mag))
+Near(x, y, mag) == LeTracked(BRAbs(BRSub(x, y)), TolOf(mag))
 
 \* magnitude of v q(ln v) built from the recurrence's magnitude vector (lt = ln t, computed once per event)
 MagAtL(Mq, t, lt) == BRMul(t, B!AbsEval(Mq, BRAbs(lt)))
@@ -61,13 +61,17 @@ GeneralOK(e) ==
 \* the rounding bound of *this* construction is a multiple of the sum of its term magnitudes (the Mag of C10),
 \* built here from the magnitude vector of the coefficient recurrence.
 QBracket(c, u, x, r) == BRAdd(B!Eval(<< BRZero, c[1], c[2], c[3], c[4] >>, x), BRMul(u, BRMul(B!Pow(x, 5), r)))
-QBracketMag(Mf, x, r) == BRAdd(B!AbsEval(<< BRZero, Mf[1], Mf[2], Mf[3], Mf[4] >>, x), BRMul(Mf[5], BRAbs(BRMul(B!Pow(x, 5), r))))
+\* The term u x^5 R(x) = u (e^x - P4(x)) carries e^x with x = -ln t rounded to one ulp, i.e. a relative error
+\* |x| 2^-53 that no evaluation scheme can avoid: its share of the rounding bound is 2|x| 2^-53 times its
+\* magnitude, which is folded into the magnitude sum here as the factor (1 + 2|x|/KAPPA).
+QBracketMag(Mf, x, r) ==
+    BRAdd(B!AbsEval(<< BRZero, Mf[1], Mf[2], Mf[3], Mf[4] >>, x),
+          BRMul(BRMul(Mf[5], BRAbs(BRMul(B!Pow(x, 5), r))), BRAdd(BROne, BRDiv(BRMul(BR(2), BRAbs(x)), BR(KAPPA)))))
 
 QuarticOK(e) ==
     LET p == Vals(e.p)
         fx == B!QuarticIndef(p)           \* exact << c1..c4, u >>
         Mf == LF!QuarticIndefMag(p)
-        qx == B!LogIndef(p)
         kx == Val(e.kx)  ky == Val(e.ky)  a == Val(e.a)  b == Val(e.b)
         K  == Val(e.integ[1])
         c  == Vals(<< e.integ[2], e.integ[3], e.integ[4], e.integ[5] >>)
@@ -77,8 +81,12 @@ QuarticOK(e) ==
         magK == BRAdd(BRAbs(ky), BRMul(kx, QBracketMag(Mf, BRNeg(lk), rk)))
         ma == BRMul(a, QBracketMag(Mf, BRNeg(la), ra))
         mb == BRMul(b, QBracketMag(Mf, BRNeg(lb), rb))
-        \* t q(ln t) differs from the quartic form by the constant q_0 only
-        Ga == BRMul(a, B!Eval(qx, la))  Gb == BRMul(b, B!Eval(qx, lb))
+        \* The exact antiderivative in the quartic form's own shape, t (sum c_j x^j + u x^5 R(x)) with the exact
+        \* coefficients fx: it differs from t q(ln t) by the constant q_0 only, and unlike that one it has no
+        \* cancellation next to t = 1 (all its terms carry a positive power of x), so the oracle is as accurate
+        \* there as the property demands of the implementation.
+        Ga == BRMul(a, QBracket(<< fx[1], fx[2], fx[3], fx[4] >>, fx[5], BRNeg(la), ra))
+        Gb == BRMul(b, QBracket(<< fx[1], fx[2], fx[3], fx[4] >>, fx[5], BRNeg(lb), rb))
     IN  /\ Len(e.integ) = 6 /\ Len(e.indef) = 6
         /\ e.indef[1] = PosZero
         /\ \A i \in 1..5 : Near(Val(e.indef[i + 1]), fx[i], Mf[i])
@@ -118,7 +126,7 @@ TraceQuartic ==
             IN  IF ~InRange(mag) THEN TRUE
                 ELSE /\ Tally(13, TRUE)
                      /\ Tally(14, BRLt(BRAbs(BRSub(v, BROne)), BRPow2(-40)))
-                     /\ Judge(IsFinite(e.y) /\ BRLe(BRAbs(BRSub(Val(e.y), val)), tol), "quartic value")
+                     /\ Judge(IsFinite(e.y) /\ LeTracked(BRAbs(BRSub(Val(e.y), val)), tol), "quartic value")
                      /\ Judge(e.v # OneBits \/ e.y = e.k \/ (IsZero(e.y) /\ IsZero(e.k)), "quartic at v=1")
 
 TraceNext == TraceLogInt \/ TraceQuartic
